@@ -132,8 +132,12 @@ def run_child(sc, work, tty_out=False, tty_err=False):
     env.pop("QT_MESSAGE_PATTERN", None)
     if tty_out or tty_err:
         return run_child_tty(sc, work, tty_out, tty_err, env)
-    r = subprocess.run([RUNNER, sp], env=env, stdout=subprocess.PIPE, stderr=subprocess.PIPE, timeout=120, cwd=work)
-    return r.returncode, r.stdout.decode("utf-8", "replace"), r.stderr.decode("utf-8", "replace")
+    try:
+        r = subprocess.run([RUNNER, sp], env=env, stdout=subprocess.PIPE, stderr=subprocess.PIPE, timeout=180, cwd=work)
+        return r.returncode, r.stdout.decode("utf-8", "replace"), r.stderr.decode("utf-8", "replace")
+    except subprocess.TimeoutExpired:
+        STATS.count("child_timeouts_inconclusive")
+        return 97, "", "child did not finish within 180 s"
 
 
 ROT = re.compile(r"^app\.(\d{4}-\d{2}-\d{2})\.(\d+)\.log(\.gz)?$")
@@ -253,6 +257,8 @@ def run_config(case):
             sc = dict(mode="ini", dir=d, keys={k: (rules_text(v) if k == "filter_rules" else v) for k, v in keys.items()}, messages=msgs, group=case.get("group", "logger"), viaSettings=case.get("viaSettings", False))
             tty = case.get("tty", "")
             rc, out, err = run_child(sc, work, tty in ("out", "both"), tty in ("err", "both"))
+            if rc == 97:
+                return ""  # time bound missed: inconclusive, never a violation
             if rc == 98:
                 return "sanitizer report in the child: " + err[-1500:]
             if rc != 0:
@@ -338,6 +344,8 @@ def run_config(case):
             with open(os.path.join(d, "app.log"), "w") as f:
                 f.write("".join(l + "\n" for l in old))
         rc, out, err = run_child(dict(mode="oneline", dir=d, args=a, messages=msgs), work)
+        if rc == 97:
+            return ""
         if rc == 98:
             return "sanitizer report in the child: " + err[-1500:]
         if rc != 0:
@@ -382,6 +390,8 @@ def run_history(case):
     work = tempfile.mkdtemp(prefix="c19h-", dir=SCRATCH)
     try:
         rc, out, err = run_child(dict(mode="history", ops=case["ops"]), work)
+        if rc == 97:
+            return ""
         if rc == 98:
             return "sanitizer report in the child: " + err[-1500:]
         if rc != 0:
